@@ -144,8 +144,11 @@ def main():
                 undecided.append("%s: verifier rejected the unit (not a proof failure): %s" % (specname, "; ".join(r.compile_errors[:3])))
                 continue
             if r.undecided:
+                # a resource limit / unsupported message concerns one function; proof failures Verus reports for the OTHER
+                # functions of the unit are definite all the same (verification is per function) and are processed below
                 undecided.append("%s: %s" % (specname, "; ".join(r.undecided[:3])))
-                continue
+                if not r.failures:
+                    continue
             if r.verified + r.errors == 0:
                 undecided.append("%s: verifier produced zero obligations (vacuity guard)" % specname)
                 continue
